@@ -2,9 +2,8 @@
 import os
 import subprocess
 
-from abtverif import build, cfg, errflow, seq
-from abtverif.seq import idx, is_call, show, has_if
-from . import common
+from abtverif import build, canon, cfg, errflow, seq
+from . import common, c18_commit, C16
 
 EXPLANATION = (
     "Decides the error discipline that makes a single allocation failure harmless.  R1: no fallible result is "
@@ -24,6 +23,9 @@ DECLINED = ["'pre-existing objects ... still work' and 'the same call succeeds w
             "resources stored in arrays inside loops", "failures of user callbacks other than create_unit"]
 ASSUMPTIONS = ["the allocator table of abtverif/errflow.py lists the repository's allocation entry points"]
 RULES_DOC = dict(common.SHARED_DOC)
+RULES_DOC["R6"] = c18_commit.DOC
+RULES_DOC["R7"] = ("= C16.R1: the key-table slot is published NULL -> LOCKED -> table and is put back to NULL when the "
+                   "table cannot be allocated (a failed set leaves no lock sentinel behind)")
 RULES_DOC.update({
     "R1": "no dropped error (-Werror=unused-result witness over all units) and no out-parameter read before the result test",
     "R2": "every error return has released or handed over the resources acquired on that path (incl. init_stage ladders)",
@@ -34,6 +36,93 @@ RULES_DOC.update({
 VARIANTS = ["lazy_stack", "no_ext_thread", "no_mem_pool", "tool_interface"]
 TECHNIQUE = ("compile-fail witness (-Werror=unused-result) + path-sensitive typestate (resource ownership with constant "
              "propagation) over clang CFG facts")
+
+
+# ---- local helpers: identities that do not depend on local names or on the spelling of a test ----------
+
+def _look(F, i, depth=3):
+    """(node, position) of expression i after looking through local temporaries that have exactly one
+    reaching definition."""
+    at = i
+    i = F.strip(i)
+    while depth > 0:
+        nd = F.nodes[i]
+        if nd.get("k") != "ref" or nd.get("dk") != "var":
+            break
+        d = canon.reaching_def(F, nd["n"], at)
+        if not isinstance(d, int) or F.nodes[F.strip(d)].get("k") in ("ilist", "zero"):
+            break
+        at = d
+        i = F.strip(d)
+        depth -= 1
+    return i, at
+
+
+def _root(F, i, depth=3):
+    """The `ref` node an access path is rooted at, a local pointer being replaced by the expression it
+    was (only) assigned from: `ABTI_sched *s = p_sched; ... s` is rooted at the parameter p_sched."""
+    at = i
+    while i is not None and i >= 0:
+        i = F.strip(i)
+        nd = F.nodes[i]
+        k = nd.get("k")
+        if k in ("mem", "idx"):
+            i = nd["b"]
+        elif k == "un" and nd["op"] in ("&", "*"):
+            i = nd["e"]
+        elif k == "ref":
+            if nd.get("dk") == "var" and depth > 0:
+                d = canon.reaching_def(F, nd["n"], at)
+                if isinstance(d, int):
+                    at = i = d
+                    depth -= 1
+                    continue
+            return nd
+        else:
+            return None
+    return None
+
+
+def _is_null_const(F, i):
+    n = F.nodes[_look(F, i)[0]]
+    return n.get("cv") == 0 and n.get("k") != "ref"
+
+
+def _label_edges(F, B):
+    """(canonical label, successor on which the label is true, successor on which it is false) of a
+    two-way branch; the label is independent of the polarity/spelling of the test (canon.cond)."""
+    if B.tc is None or len(B.succs) != 2:
+        return None
+    aj, at = cfg.cond_atom(F, B.tc)
+    lab, flip = canon.cond(F, aj)
+    true_first = (at != flip)          # label value on succs[0]
+    return lab, (B.succs[0] if true_first else B.succs[1]), (B.succs[1] if true_first else B.succs[0])
+
+
+def _copies_of(F, name):
+    """`name` plus every local that is only ever a plain copy of it (`int e = abt_errno;`), transitively."""
+    names = {name}
+    changed = True
+    while changed:
+        changed = False
+        for nd in F.nodes:
+            if not nd or nd.get("k") != "decl":
+                continue
+            for v in nd["vars"]:
+                if v["n"] in names or "init" not in v:
+                    continue
+                ds = F.var_defs(v["n"])
+                if ds and all(d is not None and F.nodes[F.strip(d)].get("k") == "ref" and F.nodes[F.strip(d)]["n"] in names for d in ds):
+                    names.add(v["n"])
+                    changed = True
+        for b, i, lh, rh in F.stores():
+            ln = F.nodes[F.strip(lh)]
+            if ln.get("k") == "ref" and ln.get("dk") == "var" and ln["n"] not in names:
+                ds = F.var_defs(ln["n"])
+                if ds and all(d is not None and F.nodes[F.strip(d)].get("k") == "ref" and F.nodes[F.strip(d)]["n"] in names for d in ds):
+                    names.add(ln["n"])
+                    changed = True
+    return names
 
 
 def rule_R1(P, rep):
@@ -72,12 +161,16 @@ def rule_R1(P, rep):
         sites = [(c, v) for b, c in F.calls() if errflow.is_fallible(P, F, F.nodes[c]) for v in errflow.out_params(F, c)]
         total += len(sites)
         flagged = {(c, v): e for c, v, e in fs}
+        ordinal = {}
         for c, v in sites:
             e = flagged.get((c, v))
+            # stable signature without the local's name: callee, argument position, n-th such call in the function
+            callee, argi = F.nodes[c]["fn"], errflow.out_params(F, c)[v]
+            k = ordinal[(callee, argi)] = ordinal.get((callee, argi), 0) + 1
             rep.ob("R1", "%s: %s filled by %s is not read before the result is tested" % (F.name, v, F.nodes[c]["fn"]), e is None,
                    "read at %s (%s) on a path where the result of the call was not tested: on failure the variable is "
                    "uninitialised" % (F.loc(e), F.render(e)[:60]) if e is not None else "", loc=F.loc(c),
-                   site="%s/use-before-check/%s/%s" % (F.name, F.nodes[c]["fn"], v))
+                   site="%s/use-before-check/%s/arg%d/%d" % (F.name, callee, argi, k))
     rep.need(total >= 60, "only %d fallible calls with out-parameters found" % total)
 
 
@@ -105,12 +198,51 @@ def rule_R2(P, rep):
     # the ladders: every stage constant that is tested in the cleanup code is also assigned
     for fn, file in (("init_library", "src/global.c"), ("xstream_create", "src/stream.c"), ("ABTD_xstream_context_create", "src/arch/abtd_stream.c")):
         F = P.fn(fn, file)
-        assigned = sorted(F.nodes[F.strip(rh)].get("cv") for b, i, lh, rh in F.stores() if rh is not None and F.render(lh) == "init_stage")
-        tested = sorted(F.nodes[F.strip(F.nodes[cfg.cond_atom(F, B.tc)[0]]["rh"])].get("cv") for B in F.blocks.values()
-                        if B.tc is not None and F.render(B.tc).startswith("init_stage >="))
+        lad = _ladders(F)
+        rep.need(len(lad) >= 1, "%s: no init-stage ladder variable found" % fn)
+        # several constant-valued locals: the ladder is the one with the most stages
+        assigned, tested = max(lad.values(), key=lambda at: (len(set(at[0])), len(at[1])))
         ok = bool(assigned) and set(tested) <= set(assigned) and assigned == list(range(1, len(assigned) + 1))
-        rep.ob("R2", "%s: init_stage ladder is dense (stages %s) and cleanup guards test assigned stages %s" % (fn, assigned, tested), ok, "",
+        rep.ob("R2", "%s: init-stage ladder is dense (stages %s) and cleanup guards test assigned stages %s" % (fn, assigned, tested), ok,
+               "stages assigned %s are not 1..n without gaps, or a cleanup guard tests a stage %s that is never assigned" % (assigned, tested),
                loc=F.file, site="%s/ladder" % fn)
+
+
+def _ladders(F):
+    """{variable: (sorted assigned stages, sorted tested stages)} for every local that plays the role of an
+    init-stage counter: each of its assignments stores an integer constant (at least two different ones) and it
+    is compared with integer constants by the cleanup guards.  The variable is found by this role, not by its
+    name; a guard is read as the smallest stage it lets through whatever way round it is written:
+    `v >= k`, `!(v < k)`, `k <= v` -> k;  `v > k`, `!(v <= k)`, `k < v` -> k + 1;  `v == k` / `v != k` -> k."""
+    vals, bad = {}, set()
+    for b, i, lh, rh in F.stores():
+        ln = F.nodes[F.strip(lh)]
+        if ln.get("k") != "ref" or ln.get("dk") != "var":
+            continue
+        rn = F.nodes[F.strip(rh)] if rh is not None and rh >= 0 else {}
+        if F.nodes[i].get("op") == "=" and "cv" in rn and rn.get("k") != "ref":
+            vals.setdefault(ln["n"], []).append(rn["cv"])
+        else:
+            bad.add(ln["n"])
+    tests = {}
+    for B in F.blocks.values():
+        if B.tc is None:
+            continue
+        c = F.nodes[cfg.cond_atom(F, B.tc)[0]]
+        if c.get("k") != "bin" or c["op"] not in ("<", ">", "<=", ">=", "==", "!="):
+            continue
+        for a, k, op in ((c["lh"], c["rh"], c["op"]), (c["rh"], c["lh"], {"<": ">", ">": "<", "<=": ">=", ">=": "<="}.get(c["op"], c["op"]))):
+            an, kn = F.nodes[F.strip(a)], F.nodes[F.strip(k)]
+            if an.get("k") == "ref" and an.get("dk") == "var" and "cv" in kn and kn.get("k") != "ref":
+                # `var op const`
+                tests.setdefault(an["n"], []).append(kn["cv"] + (1 if op in (">", "<=") else 0))
+                break
+    out = {}
+    for v, a in vals.items():
+        if v in bad or len(set(a)) < 2 or v not in tests:
+            continue
+        out[v] = (sorted(a), sorted(tests[v]))
+    return out
 
 
 class _CommitTS(cfg.Typestate):
@@ -135,13 +267,12 @@ class _CommitTS(cfg.Typestate):
             return st
         fn = nd.get("fn")
         if fn in ("ABTI_ktable_set_unsafe", "ABTI_ktable_set"):
-            key = F.render(nd["a"][3])
-            vn = F.nodes[F.strip(nd["a"][4])]
+            key = canon.expr(F, nd["a"][3])
             if nid in self.regs:
                 r = errflow.result_var(F, nid)
                 st2 = frozenset(x for x in st if x[0] != key)
                 return {st2 | {(key, nid, r, True)}, st2 | {(key, nid, r, False)}}
-            if vn.get("cv") == 0 and vn.get("k") != "ref":
+            if ctx.value(nd["a"][4]) == 0 or _is_null_const(F, nd["a"][4]):
                 return frozenset(x for x in st if x[0] != key)      # detached
         if fn == "ABTI_ktable_free":
             for key, c, r, ok in st:
@@ -154,16 +285,19 @@ class _CommitTS(cfg.Typestate):
         if ctx.cond_node is None or not st:
             return st
         from abtverif.locks import _result_zero
+        # the test in canonical form: label = the tested expression without local names, val = its truth
+        # (`!x`, `x == NULL`, `x != NULL`, a temporary holding x all give label x)
+        lab, flip = canon.cond(F, ctx.cond_node)
+        val = bool(ctx.cond_val) != flip
+        copies = ctx.aliases()
         for (k, c, r, ok) in st:
-            rz = _result_zero(F, ctx.cond_node, ctx.cond_val, c, r)
-            if rz is not None and rz != ok:
-                return None
+            for name in [r] + sorted(a for a, src in copies.items() if r is not None and src == r):
+                rz = _result_zero(F, ctx.cond_node, ctx.cond_val, c, name)
+                if rz is not None and rz != ok:
+                    return None
             # semantics of the key table: a lookup of a key registered with a non-NULL value is non-NULL
-            for d in F.descendants(ctx.cond_node):
-                dn = F.nodes[d]
-                if dn.get("k") == "call" and dn.get("fn") == "ABTI_ktable_get" and F.render(dn["a"][1]) == k and ok:
-                    if F.strip(ctx.cond_node) == d and ctx.cond_val is False:
-                        return None
+            if ok and not val and lab.startswith("ABTI_ktable_get(") and lab.endswith(", %s)" % k):
+                return None
         return st
 
 
@@ -175,12 +309,11 @@ def rule_R3(P, rep):
         for b, c in F.calls({"ABTI_ktable_set_unsafe", "ABTI_ktable_set"}):
             nd = F.nodes[c]
             val = nd["a"][4]
-            vn = F.nodes[F.strip(val)]
-            if vn.get("cv") == 0 and vn.get("k") != "ref":
+            if _is_null_const(F, val):
                 continue            # detaching store
-            base = F.base_var(val)
-            if base is not None and any(p["n"] == base for p in F.params):
-                regs[c] = (F.render(nd["a"][3]), F.render(val))
+            base = _root(F, val)    # the object belongs to the caller when it is reached from a parameter
+            if base is not None and base.get("dk") == "param" and any(p["n"] == base["n"] for p in F.params):
+                regs[c] = (canon.expr(F, nd["a"][3]), canon.expr(F, val))
         if not regs:
             continue
         ts = _CommitTS(F, set(regs))
@@ -197,34 +330,19 @@ def rule_R3(P, rep):
     rep.need(n >= 1, "no caller-owned object is registered under a key")
 
 
-def _own_failure_path(F, c, fr):
-    """Is `fr` only reachable from c through the branch on which c itself failed?"""
-    r = errflow.result_var(F, c)
-    if r is None:
-        return False
-    # find the nearest branch testing r after c (the one from which every other such test is reached)
-    cands = [bid for bid, B in F.blocks.items() if B.tc is not None and r in F.vars_in(B.tc) and B.elems and
-             cfg.can_reach(F, c, B.elems[-1])]
-    order = sorted(cands, key=lambda x: -sum(1 for y in cands if y != x and y in cfg.reachable_blocks(F, x)))
-    for bid in order[:1]:
-        B = F.blocks[bid]
-        key, t, j = cfg.cond_key(F, B.tc, True)
-        # error edge: r != 0  (key "r" true)
-        err_succ = None
-        if key == r:
-            err_succ = B.succs[0] if t else B.succs[1]
-            ok_succ = B.succs[1] if t else B.succs[0]
-        elif key == "%s == 0" % r:
-            err_succ = B.succs[1] if t else B.succs[0]
-            ok_succ = B.succs[0] if t else B.succs[1]
-        if err_succ is None:
+def _stored_through(F):
+    """Names of the parameters the function stores through (`*p = ..`, `p[i] = ..`), directly or through a
+    local that is only ever a copy of the parameter."""
+    out = set()
+    for b, i, lh, rh in F.stores():
+        n = F.nodes[F.strip(lh)]
+        tgt = n.get("e") if (n.get("k") == "un" and n["op"] == "*") else (n.get("b") if n.get("k") == "idx" else None)
+        if tgt is None:
             continue
-        fb = F.block_of(fr)
-        in_err = fb in cfg.reachable_blocks(F, err_succ)
-        in_ok = ok_succ is not None and fb in cfg.reachable_blocks(F, ok_succ)
-        # other registrations between? only consider the nearest test (dominated by c, no other set in between)
-        return in_err and not in_ok
-    return False
+        r = F.nodes[_look(F, tgt)[0]]
+        if r.get("k") == "ref" and r.get("dk") == "param":
+            out.add(r["n"])
+    return out
 
 
 def rule_R4(P, rep):
@@ -232,19 +350,25 @@ def rule_R4(P, rep):
     for F in sorted(P.functions.values(), key=lambda f: (f.file, f.line)):
         if not (F.name.startswith("ABT_") and ("_create" in F.name or F.name.endswith("_dup"))) or F.name in ("ABT_thread_create_many",):
             continue
+        # out-handles by type and use, not by name: non-const `ABT_<kind> *` parameters; an `ABT_pool *` parameter
+        # is an out-handle only if the routine stores through it (otherwise it is the input array of pools)
+        written = _stored_through(F)
         outs = [p["n"] for p in F.params if p["t"].startswith("ABT_") and p["t"].rstrip().endswith("*") and "const" not in p["t"] and
-                not p["t"].startswith("ABT_pool *") or (p["t"].startswith("ABT_pool *") and p["n"].startswith("new"))]
-        outs = [o for o in outs if o.startswith("new") or o in ("attr", "config", "def", "thread", "barrier", "key", "timer", "mutex",
-                                                                "cond", "rwlock", "eventual", "future", "newdef")]
+                (not p["t"].startswith("ABT_pool *") or p["n"] in written)]
         if not outs:
             continue
-        sel = seq.Sel(derefs=set(outs), rets=True, locks=False)
+        # a local that is only ever a copy of an out-parameter stands for it (`ABT_thread *p_out = newthread; *p_out = h`)
+        alias = {}
+        for o in outs:
+            for a in _copies_of(F, o) - {o}:
+                alias[a] = o
+        sel = seq.Sel(derefs=set(outs) | set(alias), rets=True, locks=False, canon=True)
         seen_ok = False
         for toks, kind, rv, rtxt in seq.sequences(F, sel, max_len=40, max_repeat=2):
             if kind != "ret":
                 continue
             for o in outs:
-                st = [t for t in toks if t[0] == "dst" and t[1] == o]
+                st = [t for t in toks if t[0] == "dst" and alias.get(t[1], t[1]) == o]
                 if rv == 0:
                     if st:
                         seen_ok = True
@@ -278,8 +402,9 @@ def rule_R5(P, rep):
                 continue
             n += 1
             asserts = []
+            names = _copies_of(F, r)       # the result, or a local it was merely copied into
             for bid, B in F.blocks.items():
-                if B.tc is not None and r in F.vars_in(B.tc) and ("assert" in B.tm or "ABTI_ASSERT" in B.tm) and B.elems and \
+                if B.tc is not None and names & F.vars_in(B.tc) and ("assert" in B.tm or "ABTI_ASSERT" in B.tm) and B.elems and \
                         cfg.can_reach(F, c, B.elems[-1]):
                     asserts.append(F.loc(B.tc))
             if not asserts:
@@ -310,20 +435,23 @@ def rule_R5(P, rep):
 
 
 def _is_detach_of_existing_key(F, c):
-    """ABTI_ktable_set*(…, &KEY, NULL) dominated by the true edge of `ABTI_ktable_get(…, &KEY)`:
+    """ABTI_ktable_set*(…, &KEY, NULL) dominated by the edge on which `ABTI_ktable_get(…, &KEY)` is non-NULL
+    (however that test is spelt: `get()`, `get() != NULL`, `!get()` with the call in the else arm, a temporary):
     the element exists, so ABTI_ktable_set_impl returns from its first scan without allocating."""
     nd = F.nodes[c]
-    if F.nodes[F.strip(nd["a"][4])].get("cv") != 0:
+    if not _is_null_const(F, nd["a"][4]):
         return False
-    key = F.render(nd["a"][3])
+    key = canon.expr(F, nd["a"][3])
     dom = cfg.dominators(F)
     cb = F.block_of(c)
     for bid, B in F.blocks.items():
-        if B.tc is None or bid not in dom.get(cb, ()) or len(B.succs) != 2 or B.succs[0] is None:
+        if bid not in dom.get(cb, ()):
             continue
-        has_get = any(F.nodes[d].get("k") == "call" and F.nodes[d].get("fn") == "ABTI_ktable_get" and
-                      F.render(F.nodes[d]["a"][1]) == key for d in F.descendants(cfg.cond_atom(F, B.tc)[0]))
-        if has_get and cfg.cond_atom(F, B.tc)[1] and B.succs[0] in dom.get(cb, ()) | {cb}:
+        le = _label_edges(F, B)
+        if le is None or le[1] is None:
+            continue
+        lab, found, _missing = le
+        if lab.startswith("ABTI_ktable_get(") and lab.endswith(", %s)" % key) and found in dom.get(cb, ()) | {cb}:
             return True
     return False
 
@@ -350,3 +478,5 @@ def run(P, rep, tier):
     rule_R3(P, rep)
     rule_R4(P, rep)
     rule_R5(P, rep)
+    c18_commit.rule_R6(P, rep)
+    common.borrow(rep, P, C16.rule_R1_R2, "R7", only=("R1",))
